@@ -223,6 +223,47 @@ def catchall_leg(ck, H):
             ck.nontrivial(('catchall', lst, k))
 
 
+def rate_check_leg(ck, H):
+    """Target lists audited with the connection-rate check left on, one of the targets turning the check's connections away (reset,
+    closed, left silent): the run ends, every target - that one too - gets its report, the status is the fold."""
+    warn = H['warn']
+    probe = runner.run_one(multi.single_scenario(('server', warn), 0))
+    k = probe.get('nconn') or 1
+    scs, meta = [], []
+    for fname, item in (('reset', fakenet.RESET), ('eof', fakenet.EOF), ('stall', fakenet.STALL)):
+        for pos in (0, 1):
+            for threads in (1, 2):
+                bad = peers.ServerCfg(warn)
+
+                def turn_away(n, kind, idx, data, item=item, k=k):
+                    # (connection numbers are per run: the first k connections to this server are its handshake and probes)
+                    return [item] if kind == 'banner' and turn_away.seen.setdefault(n, len(turn_away.seen)) >= k else [data]
+                turn_away.seen = {}
+                bad['mutate'] = turn_away
+                tg = [('server', bad), ('server', H['fail'])] if pos == 0 else [('server', H['good']), ('server', bad)]
+                sc, labels = multi.scenario(tg, threads, None, json_out=False)
+                sc['argv'] = [a for a in sc['argv'] if a != '--skip-rate-test']
+                scs.append(sc)
+                meta.append((fname, pos, threads, labels))
+    for (fname, pos, threads, labels), sc, r in zip(meta, scs, runner.run_many(scs)):
+        ck.evaluated()
+        replay = {'rate_check_connections': fname, 'position': pos, 'threads': threads, 'argv': sc['argv'], 'exit': r.get('exit'), 'stdout': (r.get('stdout') or '')[-3000:]}
+        if r.get('harness_error'):
+            raise common.Machinery('run failed: %r' % r.get('harness_error'))
+        if r.get('hang'):
+            ck.violation('run-never-ends with=rate-check-%s' % fname, 'a target whose rate-check connections are %s, %d thread(s): the run never ended' % (fname, threads), replay)
+            continue
+        blocks = multi.split_text(r['stdout'])
+        labs = [multi.label_of_block(b_, labels) for b_ in blocks]
+        if sorted(x for x in labs if x) != sorted(labels):
+            ck.violation('block-count with=rate-check-%s' % fname, 'a target whose rate-check connections are %s: result blocks for %r, targets %r' % (fname, labs, labels), replay)
+        elif r['exit'] != (3 if pos == 0 else 2):
+            ck.violation('exit-status-not-max with=rate-check-%s' % fname, 'exit status %r' % r['exit'], replay)
+        else:
+            ck.cov['traces_validated_against_impl'] += 1
+            ck.nontrivial(('rate-check', fname, pos, threads))
+
+
 def policy_leg(ck, H, F):
     """Policy audits (-P) over a target list: every healthy target gets exactly one verdict - the verdict of its single-target policy
     audit - whatever else is on the list, and the run's status is the highest-ranked status among the targets."""
@@ -382,6 +423,7 @@ def run(tier):
             lists.append((f, h))
             lists.append((h, f))
     lists += list(itertools.product(hn, repeat=2))
+    lists += [(h,) for h in hn] + [(f,) for f in fn]          # a targets file with a single line is a target list like any other
     lists += [(f, f) for f in fn]
     if tier == 'thorough':
         for f in fn:
@@ -479,6 +521,7 @@ def run(tier):
     json_options_leg(ck, H)
     policy_leg(ck, H, F)
     catchall_leg(ck, H)
+    rate_check_leg(ck, H)
     schedule_leg(ck, tier, H, F, rnd)
     verdicts = multi.validate(ck, traces)
     for j, ((m, tag), tr, (ok, info)) in enumerate(zip(tmeta, traces, verdicts)):
